@@ -30,11 +30,118 @@ def plan(tier, seed):
     n = 400 if tier == "quick" else 15000
     per = 25 if tier == "quick" else 250
     nops = 15 if tier == "quick" else 40
-    return [{"lo": lo, "hi": min(n, lo + per), "nops": nops} for lo in range(0, n, per)] + [{"kind": "suite"}]
+    return [{"lo": lo, "hi": min(n, lo + per), "nops": nops} for lo in range(0, n, per)] + [{"kind": "suite"}] + [{"kind": "families", "shard": i, "of": 6} for i in range(6)]
+
+
+# ---------------------------------------------------------------- part-name allocation under irregular numbering (directed)
+FAMILIES = {  # family -> member-name templates that are renumbered together
+    "slide": ["/ppt/slides/slide%d.xml"],
+    "notesSlide": ["/ppt/notesSlides/notesSlide%d.xml"],
+    "chart": ["/ppt/charts/chart%d.xml", "/ppt/embeddings/Microsoft_Excel_Sheet%d.xlsx"],
+    "image": ["/ppt/media/image%d.png"],
+    "media": ["/ppt/media/media%d.mp4"],
+}
+PATTERNS = [[2], [5], [1, 3], [2, 3], [3, 1], [1, 2, 4], [1, 3, 2], [2, 4, 6], [1, 2, 3]]
+
+
+def run_families(unit, acc):
+    """'part names are unique in the package' for every numbered part family x every irregular numbering of the members a
+    loaded deck already has (a gap below the top, a shifted range, numbers out of creation order, members owned by other
+    slides than their number suggests) x three further additions of that family through the public API."""
+    import io
+    import zipfile
+    from collections import Counter
+
+    import pptx
+    from pptx.chart.data import CategoryChartData
+    from pptx.enum.chart import XL_CHART_TYPE
+    from pptx.util import Emu
+    from vlib import env, gen, histories, monitors
+
+    monitors.install()
+
+    def add_member(prs, fam, k, rnd):
+        """one more member of the family; members made while building go on slides 1.. (slide 0 and new slides get the later ones)"""
+        slides = prs.slides
+        if fam == "slide":
+            return slides.add_slide(prs.slide_layouts[6])
+        target = next((s for s in list(slides)[1:] + [slides[0]] if (not s.has_notes_slide if fam == "notesSlide" else len(s.shapes) == 0)), None)
+        if target is None:
+            target = slides.add_slide(prs.slide_layouts[6])
+        if fam == "notesSlide":
+            target.notes_slide.notes_text_frame.text = "notes %d" % k
+        elif fam == "chart":
+            cd = CategoryChartData()
+            cd.categories = ["a", "b"]
+            cd.add_series("s%d" % k, (k, k + 1))
+            target.shapes.add_chart(XL_CHART_TYPE.COLUMN_CLUSTERED, Emu(0), Emu(0), Emu(3000000), Emu(2000000), cd)
+        elif fam == "image":
+            target.shapes.add_picture(io.BytesIO(gen.png_bytes(rnd)), Emu(0), Emu(0))
+        else:
+            target.shapes.add_movie(io.BytesIO(b"\x00\x00\x00\x18ftypmp42" + bytes(rnd.randrange(256) for _ in range(40))), Emu(0), Emu(0), Emu(1000000), Emu(800000), mime_type="video/mp4")
+        return target
+
+    for fi, fam in enumerate(sorted(FAMILIES)):
+        for pi, pat in enumerate(PATTERNS):
+            if (fi * len(PATTERNS) + pi) % unit["of"] != unit["shard"]:
+                continue
+            rnd = env.rng("C06fam", fam, pi)
+            wit = {"family": fam, "numbering": pat}
+            prs = pptx.Presentation()
+            for _ in range(len(pat) + 2 if fam != "slide" else 0):
+                prs.slides.add_slide(prs.slide_layouts[6])
+            for k in range(len(pat)):
+                add_member(prs, fam, k, rnd)
+            buf = io.BytesIO()
+            prs.save(buf)
+            data = buf.getvalue()
+            for tmpl in FAMILIES[fam]:
+                m1 = {tmpl % (i + 1): tmpl.replace("%d", "tmp%d") % (i + 1) for i in range(len(pat))}
+                m2 = {tmpl.replace("%d", "tmp%d") % (i + 1): tmpl % pat[i] for i in range(len(pat))}
+                data = histories.rename_members(histories.rename_members(data, m1), m2)
+            before = set(zipfile.ZipFile(io.BytesIO(data)).namelist())
+            prs = pptx.Presentation(io.BytesIO(data))
+            monitors.SINK.drain()
+            if rnd.random() < 0.5 or fam == "slide":
+                list(prs.slides)
+            ok = True
+            for k in range(3):
+                try:
+                    add_member(prs, fam, 100 + k, rnd)
+                except Exception as e:  # noqa
+                    acc.violation("family-addition-raises:%s:%s" % (fam, type(e).__name__), "%s numbered %s: addition %d raised %r" % (fam, pat, k + 1, e), wit)
+                    ok = False
+                    break
+                acc.hit("family-addition:" + fam)
+                for prop, key, what in monitors.SINK.drain():
+                    if prop == "C06":
+                        acc.violation(key, "%s | %s numbered %s, addition %d" % (what, fam, pat, k + 1), wit)
+                names = Counter(str(p.partname) for p in prs.part.package.iter_parts())
+                for n_, c_ in names.items():
+                    if c_ > 1:
+                        acc.violation("duplicate-partname", "%s numbered %s: after addition %d, %d parts are named %s" % (fam, pat, k + 1, c_, n_), wit)
+            if ok:
+                out = io.BytesIO()
+                prs.save(out)
+                nl = zipfile.ZipFile(io.BytesIO(out.getvalue())).namelist()
+                for n_, c_ in Counter(nl).items():
+                    if c_ > 1:
+                        acc.violation("duplicate-partname:saved", "%s numbered %s: the saved zip holds %s %d times" % (fam, pat, n_, c_), wit)
+                fam_members = [n_ for n_ in set(nl) if any(n_.startswith(t[1:].split("%d")[0]) and n_.endswith(t.split("%d")[1]) for t in FAMILIES[fam][:1])]
+                acc.count("family_saves_checked")
+                if len(fam_members) != len(pat) + 3:
+                    acc.violation("family-member-count:" + fam, "%s numbered %s + 3 additions: the saved zip holds %d members of the family (%s)" % (fam, pat, len(fam_members), sorted(fam_members)[:8]), wit)
+            acc.case(desc=wit, nontrivial=pat != list(range(1, len(pat) + 1)), cls="family:" + fam)
+    for k, v in monitors.SINK.counters.items():
+        acc.counters[k] = acc.counters.get(k, 0) + v
+    monitors.SINK.counters.clear()
 
 
 def run_unit(unit, tier, seed, acc):
     from vlib import histories
+
+    if unit.get("kind") == "families":
+        return run_families(unit, acc)
 
     if unit.get("kind") == "suite":  # the repository's own tests as one more workload for this property's monitor
         from vlib import suite
@@ -51,6 +158,11 @@ def replay(w, acc):
         from vlib import suite
 
         return suite.replay_suite(w, acc, ID)
+    if "family" in w:
+        fi, pi = sorted(FAMILIES).index(w["family"]), PATTERNS.index(w["numbering"])
+        run_families({"shard": fi * len(PATTERNS) + pi, "of": 10**6}, acc)
+        print([(v["key"], v["what"][:300]) for v in acc.violations])
+        return
 
     histories.replay_history(dict(w, save_every=5), acc, {"C06"})
     print([(v["key"], v["what"][:300]) for v in acc.violations])
